@@ -467,7 +467,7 @@ pub fn property() -> Property {
     Property {
         id: "C05",
         level: "exploration",
-        rule: "cases are generated files: section counts from {0,1,2..15,100..2000, 0xfeff,0xff00,0xff01,0xff20,0xffff,0x10000}, program header counts from {0..8, 0xfffe,0xffff,0x10000,0x10010}, extended numbering used when needed and also 'unnecessarily' (e_shnum=0 + shdr[0].sh_size, e_phnum=0xffff + shdr[0].sh_info, e_shstrndx=0xffff + shdr[0].sh_link with small values), two string tables with different contents of which e_shstrndx designates one, tables anywhere in a random layout incl. as last piece touching EOF or cut 1..48 bytes short, e_shentsize/e_phentsize from {0,right-1,right,right+1,other class's,0xffff,raw}, raw reserved e_shstrndx values 0xff00..0xfffe (used as declared), SHN_XINDEX with shdr[0].sh_link = 0, extended numbering resolving to an empty table (e_shnum = 0, shdr[0].sh_size = 0) or declaring any count (boundary values; counts whose product with the entry size wraps around 2^64 to a small number; byte-swapped small numbers), e_shoff/e_phoff forced to 0, the stream reader handed over with its cursor away from 0, raw boundary values in e_shnum/e_phnum/e_shoff/e_phoff, and symtab/dynsym/versym/dynamic sections with right or wrong sh_entsize; every table entry carries an index fingerprint; class x order x fixed/run-time spec, both parsers. Oracle = the statement's rule evaluated on the header values the file really holds (independent reader): open succeeds iff present tables have the class's entry size and fit (shdr[0] readable when needed); then section_headers()/segments() are None/empty iff the offset is 0, else len == declared (possibly extended) count and entries at {0,1,mid,len-2,len-1}+4 random indices equal the file's bytes at offset+i*entsize; the name string table is the section designated by e_shstrndx/shdr[0].sh_link; wrong sh_entsize makes symbol_table, dynamic_symbol_table, symbol_version_table (both parsers) and dynamic (slice parser) fail, and so does find_common_data when a symbol table or the dynamic section is affected. Non-trivial: extended numbering, a wrong entsize, or a table touching EOF; distinct by file hash.",
+        rule: "cases are generated files: section counts from {0,1,2..15,100..2000, 0xfeff,0xff00,0xff01,0xff20,0xffff,0x10000}, program header counts from {0..8, 0xfffe,0xffff,0x10000,0x10010}, extended numbering used when needed and also 'unnecessarily' (e_shnum=0 + shdr[0].sh_size, e_phnum=0xffff + shdr[0].sh_info, e_shstrndx=0xffff + shdr[0].sh_link with small values), two string tables with different contents of which e_shstrndx designates one, tables anywhere in a random layout incl. as last piece touching EOF or cut 1..48 bytes short, e_shentsize/e_phentsize from {0,right-1,right,right+1,other class's,0xffff,raw}, raw reserved e_shstrndx values 0xff00..0xfffe (used as declared), SHN_XINDEX with shdr[0].sh_link = 0, extended numbering resolving to an empty table (e_shnum = 0, shdr[0].sh_size = 0) or declaring any count (boundary values; counts whose product with the entry size wraps around 2^64 to a small number; byte-swapped small numbers), e_shoff/e_phoff forced to 0, the stream reader handed over with its cursor away from 0 and delivering short reads / ErrorKind::Interrupted, raw boundary values in e_shnum/e_phnum/e_shoff/e_phoff, and symtab/dynsym/versym/dynamic sections with right or wrong sh_entsize; every table entry carries an index fingerprint; class x order x fixed/run-time spec, both parsers. Oracle = the statement's rule evaluated on the header values the file really holds (independent reader): open succeeds iff present tables have the class's entry size and fit (shdr[0] readable when needed); then section_headers()/segments() are None/empty iff the offset is 0, else len == declared (possibly extended) count and entries at {0,1,mid,len-2,len-1}+4 random indices equal the file's bytes at offset+i*entsize; the name string table is the section designated by e_shstrndx/shdr[0].sh_link; wrong sh_entsize makes symbol_table, dynamic_symbol_table, symbol_version_table (both parsers) and dynamic (slice parser) fail, and so does find_common_data when a symbol table or the dynamic section is affected. Non-trivial: extended numbering, a wrong entsize, or a table touching EOF; distinct by file hash.",
         assumptions: &["e_phnum = 0xffff together with e_shoff = 0 is outside the statement (no shdr[0]) and skipped (counted)", "error kinds are not compared, only success/failure"],
         subs: vec![Sub::new("tables", oracle, 400, 30_000, 1_000_000).shrink(250)],
         extras: vec![crate::fuzz::c05_choice],
